@@ -11,6 +11,9 @@ import Midgard.Model.Rinex2Obs
 import Midgard.Spec.Rinex
 import Midgard.Proofs.ChainParser
 import Midgard.Proofs.RinexObs
+import Midgard.Proofs.Rinex3ObsRecords
+import Midgard.Proofs.Rinex3ObsText
+import Midgard.Proofs.Rinex3ObsPost
 
 namespace Midgard.Props.C11
 open Midgard.Text Midgard.FixedCol Midgard.ChainParser Midgard.RinexObs Midgard.Decimal
@@ -95,19 +98,9 @@ theorem handlers_as_modelled :
       [("False", "_parse_observation_epoch"), ("True", "_parse_observation")] := by
   decide +kernel
 
-/-! ### Header records: fixed columns + label -/
+/-! ### Header records: fixed columns + label (proofs in `Proofs/Rinex3ObsRecords.lean`) -/
 
-def specOk (sp : RecSpec) : Bool :=
-  Sorted sp.layout && Within 60 sp.layout && decide (sp.aligns.length = sp.layout.length) &&
-  Clean sp.label.toList && !sp.label.toList.isEmpty
-
-theorem specs_ok : headerSpecs.all specOk = true := by decide +kernel
-
-theorem zip_snd {α β} : ∀ (as : List α) (bs : List β), as.length = bs.length → (as.zip bs).map (·.2) = bs
-  | [], [], _ => rfl
-  | a :: as, b :: bs, h => by simp [zip_snd as bs (by simpa using h)]
-  | [], _ :: _, h => by simp at h
-  | _ :: _, [], h => by simp at h
+theorem specs_ok : headerSpecs.all Records.specOk = true := Records.specs_ok
 
 /-- **Header record round trip.**  Every header record kind of RINEX 3.04 / 2.11 (including the
 continuation-line kinds of the observation-type lists with 13 resp. 9 types per line, the phase-shift
@@ -116,66 +109,26 @@ the right-stripped rendered line, and the header label function returns its labe
 theorem header_record_roundtrip (sp : RecSpec) (hsp : sp ∈ headerSpecs) (cells : List Str)
     (hlen : cells.length = sp.layout.length) (hf : Fits sp.layout (sp.aligns.zip cells) = true) :
     sp.layout.map (fun f => slice f (rstrip (renderLabelled sp cells))) = cells ∧
-    asString (strip (sliceFrom 60 (rstrip (renderLabelled sp cells)))) = sp.label := by
-  have hok := List.all_eq_true.mp specs_ok sp hsp
-  simp only [specOk, Bool.and_eq_true, decide_eq_true_eq, Bool.not_eq_eq_eq_not, Bool.not_true] at hok
-  obtain ⟨⟨⟨⟨hs, hw⟩, hal⟩, hc⟩, hne⟩ := hok
-  have hne' : sp.label.toList ≠ [] := by
-    intro h; rw [h] at hne; simp at hne
-  have hfields := labelled_fields sp.layout (sp.aligns.zip cells) sp.label.toList hs hf
-  rw [zip_snd _ _ (by omega)] at hfields
-  have hlab := labelled_label sp.layout (sp.aligns.zip cells) sp.label.toList hs hf hw hc hne'
-  refine ⟨hfields, ?_⟩
-  unfold renderLabelled renderCells
-  rw [hlab, strip_of_clean hc]
-  simp [asString]
+    asString (strip (sliceFrom 60 (rstrip (renderLabelled sp cells)))) = sp.label :=
+  Records.header_record_roundtrip sp hsp cells hlen hf
 
 /-! ### Observation records: value, LLI and SNR of the k-th 16-character column -/
 
-def obs3Ok (n : Nat) : Bool :=
-  Sorted (obs3 n).layout && decide ((obs3 n).aligns.length = 1 + 3 * n) && decide ((obs3 n).layout.length = 1 + 3 * n)
-
-theorem obs3_ok : (List.range 41).all obs3Ok = true := by decide +kernel
+theorem obs3_ok : (List.range 41).all Records.obs3Ok = true := Records.obs3_ok
 
 /-- the three texts the parser cuts out of observation field `k` are the standard's value / LLI / SNR columns -/
 theorem triple_slices (line : Str) (n k : Nat) :
     let f := Midgard.Rinex3Obs.obsField (ljust (16 * n) (sliceFrom 3 line)) k
     [strip (Text.slice 0 14 f), strip (Text.slice 14 15 f), strip (Text.slice 15 16 f)] =
-      (obsTriple k (3 + 16 * k)).map (fun g => FixedCol.slice g line) := by
-  simp only [Midgard.Rinex3Obs.obsField, obsTriple, List.map_cons, List.map_nil, FixedCol.slice, sliceRaw, sliceFrom]
-  rw [slice_slice, slice_slice, slice_slice, strip_slice_ljust, strip_slice_ljust, strip_slice_ljust,
-    slice_drop, slice_drop, slice_drop]
-  have e1 : min (16 * k + 14) (16 * k + 16) + 3 = 3 + 16 * k + 14 := by omega
-  have e2 : min (16 * k + 15) (16 * k + 16) + 3 = 3 + 16 * k + 15 := by omega
-  have e3 : min (16 * k + 16) (16 * k + 16) + 3 = 3 + 16 * k + 16 := by omega
-  have e4 : 16 * k + 0 + 3 = 3 + 16 * k := by omega
-  have e5 : 16 * k + 14 + 3 = 3 + 16 * k + 14 := by omega
-  have e6 : 16 * k + 15 + 3 = 3 + 16 * k + 15 := by omega
-  rw [e1, e2, e3, e4, e5, e6]
+      (obsTriple k (3 + 16 * k)).map (fun g => FixedCol.slice g line) :=
+  Records.triple_slices line n k
 
 theorem obs_record (n : Nat) (hn : n ≤ 40) (sat : Str) (cells : List Str) (hlen : cells.length = 3 * n)
     (hf : Fits (obs3 n).layout ((obs3 n).aligns.zip (sat :: cells)) = true) :
     (Midgard.Rinex3Obs.obsTriples n (sliceFrom 3 (rstrip (renderCells (obs3 n) (sat :: cells))))).flatMap
         (fun t => [strip t.1, strip t.2.1, strip t.2.2]) = cells ∧
-    strip (Text.slice 0 3 (rstrip (renderCells (obs3 n) (sat :: cells)))) = sat := by
-  have hok := List.all_eq_true.mp obs3_ok n (List.mem_range.mpr (by omega))
-  simp only [obs3Ok, Bool.and_eq_true, decide_eq_true_eq] at hok
-  obtain ⟨⟨hs, hal⟩, hll⟩ := hok
-  have hall := slice_renderA_rstrip (obs3 n).layout ((obs3 n).aligns.zip (sat :: cells)) hs hf
-  rw [zip_snd _ _ (by simp [hal, hlen]; omega)] at hall
-  unfold renderCells
-  generalize rstrip (renderA (obs3 n).layout ((obs3 n).aligns.zip (sat :: cells))) = line at hall ⊢
-  have hlay : (obs3 n).layout = ⟨"sat", 0, 3⟩ :: obsLayout 3 n := rfl
-  rw [hlay, List.map_cons, List.cons.injEq] at hall
-  obtain ⟨hsat, hcells⟩ := hall
-  refine ⟨?_, hsat⟩
-  rw [← hcells]
-  unfold Midgard.Rinex3Obs.obsTriples obsLayout
-  rw [List.flatMap_map, List.map_flatMap]
-  congr 1
-  funext k
-  exact triple_slices line n k
-
+    strip (Text.slice 0 3 (rstrip (renderCells (obs3 n) (sat :: cells)))) = sat :=
+  Records.obs_record n hn sat cells hlen hf
 
 /-- with `_float` on top: the parsed (value, LLI, SNR) of every observation type are `_float` of the
 printed cells — blank or zero cells are absent, trailing blanks of the line may be stripped, a line
@@ -183,13 +136,8 @@ may end after the last non-blank field -/
 theorem obs_record_values (n : Nat) (hn : n ≤ 40) (sat : Str) (cells : List Str) (hlen : cells.length = 3 * n)
     (hf : Fits (obs3 n).layout ((obs3 n).aligns.zip (sat :: cells)) = true) :
     (Midgard.Rinex3Obs.obsTriples n (sliceFrom 3 (rstrip (renderCells (obs3 n) (sat :: cells))))).flatMap
-        (fun t => [floatOpt t.1, floatOpt t.2.1, floatOpt t.2.2]) = cells.map floatOpt := by
-  have h := (obs_record n hn sat cells hlen hf).1
-  have h2 := congrArg (List.map floatOpt) h
-  rw [← h2, List.map_flatMap]
-  congr 1
-  funext t
-  simp [floatOpt_strip]
+        (fun t => [floatOpt t.1, floatOpt t.2.1, floatOpt t.2.2]) = cells.map floatOpt :=
+  Records.obs_record_values n hn sat cells hlen hf
 
 /-- RINEX 2: the three texts cut out of the `j`-th 16-character field of an observation line are the
 standard's value / LLI / SNR columns of that line -/
@@ -215,7 +163,7 @@ theorem obs2_line_record (cells : List Str) (hlen : cells.length = 15)
   have hs : Sorted (obs2 5).layout = true := by decide +kernel
   have hal : (obs2 5).aligns.length = 15 := by decide +kernel
   have h := slice_renderA_rstrip (obs2 5).layout ((obs2 5).aligns.zip cells) hs hf
-  rw [zip_snd _ _ (by omega)] at h
+  rw [Records.zip_snd _ _ (by omega)] at h
   exact h
 
 /-! ### RINEX 3: all per-record columns keep equal length -/
@@ -488,13 +436,104 @@ example : tiny3Out.map (·.1.length) = some 3 ∧
     tiny3Out.map (·.2.2.2.2) = some (some [some 7, none, none]) := by
   decide +kernel
 
+/-! ### RINEX 3: the file level
+
+`Spec/Rinex3ObsFile.lean`: an abstract file `F` (header records in file order incl. `SYS / # / OBS TYPES` with its
+continuation lines, epochs with flag and receiver clock offset, one record per satellite with value / LLI / SSI per
+type of its system, blank = missing; every line as formatted, right-stripped or filled to 80 columns), its writer
+`render`, the decidable `wf`, and `expected rate F`: the header handlers applied to the header's *values*, then one
+column per observation type of the file with one entry per (kept epoch, satellite) in file order.
+Proof: `Proofs/Rinex3ObsLines|Cols|Data|File|Text.lean` — line effects, the column store in closed form, induction
+over satellites and epochs through `ChainParser.readData`. -/
+
+section File3
+open Midgard.Spec.Rinex3ObsFile Midgard.Rinex3Obs
+
+/-- **File-level round trip (RINEX 3).**  `read_data` on the lines of a rendered well-formed file ends in exactly
+the state `expected rate F`: the header dictionary as the handlers build it from the header's cells, every
+observation type of the file as a column with one entry per (epoch on the sampling grid, satellite) in file order —
+value, LLI, SSI printed in the satellite's record for the types of its system (blank or zero = absent), absent for
+the types the system does not have — and epoch string, flag, receiver clock offset, station, system, satellite,
+satellite number per row; all columns of equal length.
+Partial: what the data section needs from the header (the list of all types, the marker name, the per-system type
+lists, empty columns: `hdrOk`) is a hypothesis *evaluated* on the header's values — the full statement is the same
+without `hh` (header state machine at value level: `Meta.set` frame lemmas for every header handler). -/
+theorem file_roundtrip3_partial (rate : Option Rat) (F : File) (hwf : F.wf = true) (hh : hdrOk rate F.hdr = true) :
+    readData headerParser obsParser resetCache (fileLines F) true 0 { rate := rate } = expected rate F :=
+  file_of_hdrOk rate F hwf hh
+
+/-- the text of a rendered well-formed file splits into the rendered lines (no cell contains a line break) -/
+theorem lines_of_render3 (F : File) (hwf : F.wf = true) : ChainParser.fileLines (render F) = fileLines F :=
+  lines_render F hwf
+
+/-- **`Rinex3Parser(text of F, sampling_rate).parse()`** is `expected rate F` followed by the post-processors -/
+theorem parse_render3_partial (rate : Option Rat) (F : File) (hwf : F.wf = true) (hh : hdrOk rate F.hdr = true) :
+    parseText rate (render F) = match expected rate F with
+      | .ok s => finish s
+      | .error e => .error e := by
+  unfold parseText parseLines
+  rw [lines_render F hwf, file_of_hdrOk rate F hwf hh]
+  cases expected rate F <;> rfl
+
+/-- the columns of `expected` all have one entry per row -/
+theorem expected_columns_aligned (rate : Option Rat) (F : File) (d0 : Data) :
+    let d := expectedData rate F d0
+    (∀ kc ∈ d.obs ++ d.lli ++ d.snr, kc.2.length = (rows rate F).length) ∧
+    d.time.length = (rows rate F).length ∧ d.epochFlag.length = (rows rate F).length ∧ d.clk.length = (rows rate F).length ∧
+    d.station.length = (rows rate F).length ∧ d.system.length = (rows rate F).length ∧
+    d.satellite.length = (rows rate F).length ∧ d.satnum.length = (rows rate F).length := by
+  refine ⟨?_, by simp [expectedData], by simp [expectedData], by simp [expectedData], by simp [expectedData],
+    by simp [expectedData], by simp [expectedData], by simp [expectedData]⟩
+  intro kc hkc
+  simp only [expectedData, column, List.mem_append, List.mem_map] at hkc
+  rcases hkc with (⟨t, _, rfl⟩ | ⟨t, _, rfl⟩) | ⟨t, _, rfl⟩ <;> simp
+
+/-- **The post-processors keep every row.**  After `_remove_empty_systems`, `_remove_empty_obstype_fields` and
+`_time_system_correction` the row-level columns (epoch, flag, clock offset, station, system, satellite, number) and
+the header position are unchanged, and the observation / LLI / SSI columns are the parsed ones minus the types
+whose observation column is empty or absent in every row (`deadTypes`) — no value moves, no row is lost. -/
+theorem postprocessors_keep_rows (s s' : State) (h : finish s = .ok s') :
+    s'.data.obs = s.data.obs.filter (fun kc => !(deadTypes s.data).contains kc.1) ∧
+    s'.data.lli = s.data.lli.filter (fun kc => !(deadTypes s.data).contains kc.1) ∧
+    s'.data.snr = s.data.snr.filter (fun kc => !(deadTypes s.data).contains kc.1) ∧
+    rowCols s'.data = rowCols s.data ∧ s'.data.timeMicros = s.data.timeMicros ∧ s'.data.pos = s.data.pos :=
+  finish_data s s' h
+
+/-- a small file: two systems with different type lists, a blank observation, a zero observation, epoch flag 1 -/
+def tinyF : File :=
+  let c (t : String) (v : Option Rat) : Cell := ⟨t.toList, v⟩
+  let i (t : String) (v : Int) : IntCell := ⟨t.toList, v⟩
+  { hdr := [.plain "VER3" ["3.04".toList, "O".toList, "M".toList], .marker "trds".toList,
+            .sysObs "G".toList "2".toList [["C1C".toList, "L1C".toList]], .sysObs "E".toList "1".toList [["C5X".toList]],
+            .plain "TFIRST" ["2018".toList, "2".toList, "1".toList, "0".toList, "0".toList, "0.0000000".toList, "GPS".toList]],
+    epochs := [
+      { year := i "2018" 2018, month := i "2" 2, day := i "1" 1, hour := i "0" 0, minute := i "0" 0, second := ⟨"0.0000000".toList, 0⟩,
+        flag := i "0" 0, numSat := "2".toList, clk := c "" none,
+        sats := [⟨"G07".toList, [⟨c "23494924.453" (some (23494924453 / 1000)), c "" none, c "" none⟩, ⟨c "" none, c "" none, c "7" (some 7)⟩]⟩,
+                 ⟨"E08".toList, [⟨c ".000" none, c "0" none, c "5" (some 5)⟩]⟩] },
+      { year := i "2018" 2018, month := i "2" 2, day := i "1" 1, hour := i "0" 0, minute := i "0" 0, second := ⟨"15.0000000".toList, 15⟩,
+        flag := i "1" 1, numSat := "1".toList, clk := c "-.000000123456" (some (-123456 / 1000000000000)),
+        sats := [⟨"E08".toList, [⟨c "26016567.422" (some (26016567422 / 1000)), c "" none, c "" none⟩]⟩] }],
+    style := .stripped }
+
+example : tinyF.wf = true ∧ hdrOk none tinyF.hdr = true ∧ hdrOk (some 30) tinyF.hdr = true := by decide +kernel
+
+example : (rows none tinyF).length = 3 ∧ (rows (some 30) tinyF).length = 2 ∧
+    ((expected (some 30) tinyF).toOption.map fun s => s.data.satellite) = some ["G07".toList, "E08".toList] ∧
+    ((expected (some 30) tinyF).toOption.map fun s => s.data.epochFlag) = some [0, 0] ∧
+    ((expected none tinyF).toOption.map fun s => s.data.obs) =
+      some [("C1C".toList, [some (23494924453 / 1000), none, none]), ("L1C".toList, [none, none, none]),
+        ("C5X".toList, [none, none, some (26016567422 / 1000)])] := by
+  decide +kernel
+
+end File3
+
 end Midgard.Props.C11
 
 #print axioms Midgard.Props.C11.header_cols_cover_spec
 #print axioms Midgard.Props.C11.record_cols_cover_spec
 #print axioms Midgard.Props.C11.handlers_as_modelled
 #print axioms Midgard.Props.C11.specs_ok
-#print axioms Midgard.Props.C11.zip_snd
 #print axioms Midgard.Props.C11.header_record_roundtrip
 #print axioms Midgard.Props.C11.floatOpt_blank
 #print axioms Midgard.Props.C11.floatOpt_value
@@ -514,3 +553,8 @@ end Midgard.Props.C11
 #print axioms Midgard.Props.C11.zip_fst_of_length
 #print axioms Midgard.Props.C11.obsTriples_length
 #print axioms Midgard.Props.C11.obs_columns_aligned
+#print axioms Midgard.Props.C11.file_roundtrip3_partial
+#print axioms Midgard.Props.C11.lines_of_render3
+#print axioms Midgard.Props.C11.parse_render3_partial
+#print axioms Midgard.Props.C11.expected_columns_aligned
+#print axioms Midgard.Props.C11.postprocessors_keep_rows
